@@ -553,6 +553,10 @@ pub fn run(case: &Case, out: &mut Out) {
   // `now_or_never()`, a stream that moves to another task); `w=` counts the wake-ups of the waker of the MOST RECENT
   // poll, the only one the `Future` / `Stream` contract promises to wake
   let mut wk = Arc::new(CountWaker(AtomicUsize::new(0)));
+  // field `twowakers`: the polls ALTERNATE between two long-lived wakers (two tasks taking turns on one future: A, B, A, …) —
+  // a conversion that remembers a waker must remember the one of the LAST poll
+  let two = [Arc::new(CountWaker(AtomicUsize::new(0))), Arc::new(CountWaker(AtomicUsize::new(0)))];
+  let mut polls = 0usize;
   let llog = Rc::new(RefCell::new(Vec::<Notif>::new()));
   let tlog = Arc::new(Mutex::new(Vec::<Notif>::new()));
 
@@ -618,7 +622,12 @@ pub fn run(case: &Case, out: &mut Out) {
       }
       "poll" => {
         if !matches!(conv, Conv::Dropped) {
-          wk = Arc::new(CountWaker(AtomicUsize::new(0)));
+          if case.has("twowakers") {
+            wk = two[polls % 2].clone();
+            polls += 1;
+          } else {
+            wk = Arc::new(CountWaker(AtomicUsize::new(0)));
+          }
         }
         let the_waker = waker(wk.clone());
         let mut cx = Context::from_waker(&the_waker);
